@@ -368,8 +368,125 @@ def check_timeout(ctx, rule, P):
 # merlin transcript
 
 
-def transcript_events(ev):
+def transcript_events_in(P, f):
+    """Transcript of f, looked for in f itself or in one crate-local helper f hands its values to.
+    Returns (events | None, evaluation that holds the transcript, mode, (helper, call site) | None) with mode in
+    {"inline", "helper", "loop-helper", "none"}; in helper mode the helper's parameters are replaced by f's arguments."""
+    from ..core.terms import subst
+
+    ev = evaluate(f)
+    evts = transcript_events(ev)
+    if evts is not None:
+        return evts, ev, "inline", None
+    for bb, s in sorted(ev.sites.items()):
+        g = P.fns.get(s.callee[0])
+        if g is None or g is f:
+            continue
+        gev = evaluate(g)
+        if not any(x.callee[0].endswith("Transcript::new") for x in gev.sites.values()):
+            continue
+        mapping = {}
+        for i in range(1, g.arg_count + 1):
+            if i - 1 < len(s.args):
+                mapping[T("param", i, gev.pname(i))] = s.args[i - 1]
+        if g.cfg.back_edges():
+            return loop_transcript_events(P, g, gev, s, mapping), gev, "loop-helper", (g, s)
+        return transcript_events(gev, xf=lambda t: subst(t, mapping)), gev, "helper", (g, s)
+    return None, ev, "none", None
+
+
+def _zip_sources(P, gev, site):
+    """For the helper's `labels.iter().zip(points)`: ([label bytes..] | None, [point terms..] | None)."""
+    zips = [s for s in gev.sites.values() if s.callee[0] == "Iterator::zip"]
+    if len(zips) != 1:
+        return None, None
+    def base(a):
+        src = B.peel(a)
+        while src.op == "call" and B.cname(src) in ("slice::<impl [T]>::iter", "IntoIterator::into_iter", "Iterator::copied", "Iterator::cloned"):
+            src = B.peel(src.a[1][0])
+        return src
+    out = []
+    for a in zips[0].args[:2]:
+        src = base(a)
+        if src.op == "named":
+            vals = None
+            for c in P.facts.get("consts", []):
+                if c.get("name") == src.a[0] and (c.get("value") or {}).get("elems_hex") is not None:
+                    vals = [("label", bytes.fromhex(h)) for h in c["value"]["elems_hex"]]
+            out.append(vals)
+        elif src.op == "param":
+            arg = site.args[src.a[0] - 1] if src.a[0] - 1 < len(site.args) else None
+            x = B.peel(arg) if arg is not None else None
+            out.append([("term", e) for e in x.a[1]] if x is not None and x.op == "agg" and x.a[0][0] == "array" else None)
+        elif src.op == "agg" and src.a[0][0] == "array":
+            out.append([("term", e) for e in src.a[1]])
+        else:
+            out.append(None)
+    return out[0], out[1]
+
+
+def loop_transcript_events(P, g, gev, site, mapping):
+    """Events of a transcript that a helper builds with `for (label, point) in LABELS.iter().zip(points)`:
+    the loop is unrolled over the constant label table and the array handed over at the call site.  None when the
+    shape is not exactly that (or the two lists differ in length - reported separately)."""
+    from ..core.terms import subst
+
+    cfg = g.cfg
+    be = cfg.back_edges()
+    if len(be) != 1:
+        return None
+    src_b, hdr = be[0]
+    body = cfg.natural_loop(src_b, hdr)
+    new = [s for s in gev.sites.values() if s.callee[0].endswith("Transcript::new")]
+    ch = [s for s in gev.sites.values() if s.callee[0].endswith("Transcript::challenge_bytes")]
+    apps = [(b, s) for b, s in sorted(gev.sites.items()) if s.callee[0].endswith("Transcript::append_message")]
+    if len(new) != 1 or len(ch) != 1:
+        return None
+    inloop = [(b, s) for b, s in apps if b in body]
+    if len(inloop) != 1 or not cfg.dominates(inloop[0][0], src_b):
+        return None
+    la, lb = _zip_sources(P, gev, site)
+    if la is None or lb is None or len(la) != len(lb):
+        return None
+    labels = [x[1] for x in la] if all(x[0] == "label" for x in la) else None
+    points = [x[1] for x in lb] if all(x[0] == "term" for x in lb) else None
+    if labels is None or points is None:
+        labels = [x[1] for x in lb] if all(x[0] == "label" for x in lb) else None
+        points = [x[1] for x in la] if all(x[0] == "term" for x in la) else None
+    if labels is None or points is None:
+        return None
+    # body shape: append_message(<label element>, to_bytes(<point element>))
+    s = inloop[0][1]
+    pay = strip_sites(s.args[2])
+    tb = [x for x in subterms(pay) if x.op == "call" and B.cname(x) == "GroupEncoding::to_bytes"]
+    if len(tb) != 1 or not any(x.op == "call" and B.cname(x) == "Iterator::next" for x in subterms(tb[0])):
+        return None
+    out = [("new", _lit(B.nf(gev, new[0].args[0])), None)]
+    order = {b: i for i, b in enumerate(cfg.rpo())} if hasattr(cfg, "rpo") else {}
+    pre = [(b, x) for b, x in apps if b not in body and cfg.dominates(b, hdr)]
+    post = [(b, x) for b, x in apps if b not in body and not cfg.dominates(b, hdr)]
+    for b, x in pre:
+        out.append(("msg", _lit(B.nf(gev, x.args[1])), B.nf(gev, subst(x.args[2], mapping))))
+    for lab, pt in zip(labels, points):
+        term = T("call", ("GroupEncoding::to_bytes", ()), (pt,))
+        try:
+            lt = lab.decode()
+        except Exception:
+            lt = lab.hex()
+        out.append(("msg", lt, B.nf(gev, term)))
+    for b, x in post:
+        out.append(("msg", _lit(B.nf(gev, x.args[1])), B.nf(gev, subst(x.args[2], mapping))))
+    n = None
+    for x in subterms(ch[0].args[2]):
+        if x.op == "repeat":
+            n = x.a[1]
+    out.append(("challenge", _lit(B.nf(gev, ch[0].args[1])), n))
+    return out
+
+
+def transcript_events(ev, xf=None):
     """[(kind, label, payload-nf)] of the merlin transcript built in a function."""
+    xf = xf or (lambda t: t)
     out = []
     new = [s for s in ev.sites.values() if s.callee[0].endswith("Transcript::new")]
     if not new:
@@ -384,7 +501,7 @@ def transcript_events(ev):
     base, evs = B.events(ch[0].args[0])
     for name, others, _ in evs:
         if name.endswith("append_message"):
-            out.append(("msg", _lit(B.nf(ev, others[0])), B.nf(ev, others[1])))
+            out.append(("msg", _lit(B.nf(ev, others[0])), B.nf(ev, xf(others[1]))))
         else:
             out.append(("other", name, None))
     n = None
